@@ -9,6 +9,9 @@ Import ListNotations.
 
 Notation CRLF := [13%N; 10%N].
 
+Ltac bo := repeat first [ assumption | apply Forall_nil | (apply Forall_cons; [reflexivity|])
+                        | (apply bytes_ok_app; split) | apply bytes_ok_skipn ].
+
 Section HdrComplete.
 Variable hc : hcfg.
 
@@ -47,122 +50,123 @@ Proof. intros Ewb Ev E13 E10 Ef Ew. cbn [ref_value_start]. rewrite Ewb, Ev, E13,
 
 Lemma ref_value_lines_complete : forall n l voff racc off, length l <= n ->
   ref_value_lines hc voff racc off l = RPart ->
-  exists t x o, ref_value_lines hc voff racc off (l ++ t ++ CRLF) = ROk x o CRLF.
+  exists t, bytes_ok t /\ exists x o, ref_value_lines hc voff racc off (l ++ t ++ CRLF) = ROk x o CRLF.
 Proof.
   induction n as [|n IH]; intros l voff racc off Hn H.
-  { destruct l; [|cbn [length] in Hn; lia]. exists CRLF. cbn [app ref_value_lines].
+  { destruct l; [|cbn [length] in Hn; lia]. exists CRLF. split; [bo|]. cbn [app ref_value_lines].
     destruct (allow_obsolete_multiline_headers hc); eexists; eexists; reflexivity. }
   destruct l as [|b r].
-  { exists CRLF. cbn [app ref_value_lines].
+  { exists CRLF. split; [bo|]. cbn [app ref_value_lines].
     destruct (allow_obsolete_multiline_headers hc); eexists; eexists; reflexivity. }
   cbn [length] in Hn. cbn [ref_value_lines] in H.
   destruct (value_char b) eqn:Ev.
-  { destruct (IH r voff (b :: racc) (S off) ltac:(lia) H) as [t [x [o Ht]]].
-    exists t, x, o. cbn [app ref_value_lines]. rewrite Ev. exact Ht. }
+  { destruct (IH r voff (b :: racc) (S off) ltac:(lia) H) as [t [Hbt [x [o Ht]]]].
+    exists t. split; [exact Hbt|]. exists x, o. cbn [app ref_value_lines]. rewrite Ev. exact Ht. }
   destruct (is 13 b) eqn:E13.
   { destruct r as [|b2 r2].
-    { exists [10%N]. cbn [app ref_value_lines]. rewrite Ev, E13.
+    { exists [10%N]. split; [bo|]. cbn [app ref_value_lines]. rewrite Ev, E13.
       destruct (allow_obsolete_multiline_headers hc); eexists; eexists; reflexivity. }
     destruct (is 10 b2) eqn:E10; cbn [negb] in H; [|discriminate].
     destruct (allow_obsolete_multiline_headers hc) eqn:Ef; [|discriminate].
     destruct r2 as [|b3 r3].
-    { exists []. cbn [app ref_value_lines]. rewrite Ev, E13, E10, Ef. cbn [negb]. eexists; eexists; reflexivity. }
+    { exists []. split; [bo|]. cbn [app ref_value_lines]. rewrite Ev, E13, E10, Ef. cbn [negb]. eexists; eexists; reflexivity. }
     destruct (ws b3) eqn:Ew; [|discriminate].
-    destruct (IH (b3 :: r3) voff (10%N :: 13%N :: racc) (2 + off) ltac:(cbn [length] in *; lia) H) as [t [x [o Ht]]].
-    exists t, x, o. change ((b :: b2 :: b3 :: r3) ++ t ++ CRLF) with (b :: b2 :: b3 :: (r3 ++ t ++ CRLF)).
+    destruct (IH (b3 :: r3) voff (10%N :: 13%N :: racc) (2 + off) ltac:(cbn [length] in *; lia) H) as [t [Hbt [x [o Ht]]]].
+    exists t. split; [exact Hbt|]. exists x, o. change ((b :: b2 :: b3 :: r3) ++ t ++ CRLF) with (b :: b2 :: b3 :: (r3 ++ t ++ CRLF)).
     rewrite rvl_step_fold_cr by assumption. exact Ht. }
   destruct (is 10 b) eqn:E10.
   { destruct (allow_obsolete_multiline_headers hc) eqn:Ef; [|discriminate].
     destruct r as [|b3 r3].
-    { exists []. cbn [app ref_value_lines]. rewrite Ev, E13, E10, Ef. eexists; eexists; reflexivity. }
+    { exists []. split; [bo|]. cbn [app ref_value_lines]. rewrite Ev, E13, E10, Ef. eexists; eexists; reflexivity. }
     destruct (ws b3) eqn:Ew; [|discriminate].
-    destruct (IH (b3 :: r3) voff (10%N :: racc) (S off) ltac:(lia) H) as [t [x [o Ht]]].
-    exists t, x, o. change ((b :: b3 :: r3) ++ t ++ CRLF) with (b :: b3 :: (r3 ++ t ++ CRLF)).
+    destruct (IH (b3 :: r3) voff (10%N :: racc) (S off) ltac:(lia) H) as [t [Hbt [x [o Ht]]]].
+    exists t. split; [exact Hbt|]. exists x, o. change ((b :: b3 :: r3) ++ t ++ CRLF) with (b :: b3 :: (r3 ++ t ++ CRLF)).
     rewrite rvl_step_fold_lf by assumption. exact Ht. }
   destruct (ref_invalid (ignore_invalid_headers hc) HeaderValue off (b :: r)) as [u o' r'| |e'] eqn:Ei; cbn [rbind] in H; try discriminate.
   destruct (ref_invalid_complete _ _ _ _ CRLF Ei) as [o Ho].
-  exists [10%N]. eexists; exists o. change ((b :: r) ++ [10%N] ++ CRLF) with (b :: (r ++ 10%N :: CRLF)).
+  exists [10%N]. split; [bo|]. eexists; exists o. change ((b :: r) ++ [10%N] ++ CRLF) with (b :: (r ++ 10%N :: CRLF)).
   cbn [ref_value_lines]. rewrite Ev, E13, E10. change (b :: (r ++ 10%N :: CRLF)) with ((b :: r) ++ 10%N :: CRLF).
   rewrite Ho. reflexivity.
 Qed.
 
 Lemma ref_value_start_complete : forall n l off, length l <= n ->
   ref_value_start hc off l = RPart ->
-  exists t x o, ref_value_start hc off (l ++ t ++ CRLF) = ROk x o CRLF.
+  exists t, bytes_ok t /\ exists x o, ref_value_start hc off (l ++ t ++ CRLF) = ROk x o CRLF.
 Proof.
   induction n as [|n IH]; intros l off Hn H.
-  { destruct l; [|cbn [length] in Hn; lia]. exists CRLF. cbn [app ref_value_start].
+  { destruct l; [|cbn [length] in Hn; lia]. exists CRLF. split; [bo|]. cbn [app ref_value_start].
     destruct (allow_obsolete_multiline_headers hc); eexists; eexists; reflexivity. }
   destruct l as [|b r].
-  { exists CRLF. cbn [app ref_value_start].
+  { exists CRLF. split; [bo|]. cbn [app ref_value_start].
     destruct (allow_obsolete_multiline_headers hc); eexists; eexists; reflexivity. }
   cbn [length] in Hn. cbn [ref_value_start] in H.
   destruct (ws b) eqn:Ewb.
-  { destruct (IH r (S off) ltac:(lia) H) as [t [x [o Ht]]].
-    exists t, x, o. cbn [app ref_value_start]. rewrite Ewb. exact Ht. }
+  { destruct (IH r (S off) ltac:(lia) H) as [t [Hbt [x [o Ht]]]].
+    exists t. split; [exact Hbt|]. exists x, o. cbn [app ref_value_start]. rewrite Ewb. exact Ht. }
   destruct (value_char b) eqn:Ev.
-  { destruct (ref_value_lines_complete (S (length r)) (b :: r) off [] off (le_n _) H) as [t [x [o Ht]]].
-    exists t, x, o. change ((b :: r) ++ t ++ CRLF) with (b :: (r ++ t ++ CRLF)). cbn [ref_value_start]. rewrite Ewb, Ev. exact Ht. }
+  { destruct (ref_value_lines_complete (S (length r)) (b :: r) off [] off (le_n _) H) as [t [Hbt [x [o Ht]]]].
+    exists t. split; [exact Hbt|]. exists x, o. change ((b :: r) ++ t ++ CRLF) with (b :: (r ++ t ++ CRLF)). cbn [ref_value_start]. rewrite Ewb, Ev. exact Ht. }
   destruct (is 13 b) eqn:E13.
   { destruct r as [|b2 r2].
-    { exists [10%N]. cbn [app ref_value_start]. rewrite Ewb, Ev, E13.
+    { exists [10%N]. split; [bo|]. cbn [app ref_value_start]. rewrite Ewb, Ev, E13.
       destruct (allow_obsolete_multiline_headers hc); eexists; eexists; reflexivity. }
     destruct (is 10 b2) eqn:E10; cbn [negb] in H; [|discriminate].
     destruct (allow_obsolete_multiline_headers hc) eqn:Ef; [|discriminate].
     destruct r2 as [|b3 r3].
-    { exists []. cbn [app ref_value_start]. rewrite Ewb, Ev, E13, E10, Ef. cbn [negb]. eexists; eexists; reflexivity. }
+    { exists []. split; [bo|]. cbn [app ref_value_start]. rewrite Ewb, Ev, E13, E10, Ef. cbn [negb]. eexists; eexists; reflexivity. }
     destruct (ws b3) eqn:Ew; [|discriminate].
-    destruct (IH (b3 :: r3) (2 + off) ltac:(cbn [length] in *; lia) H) as [t [x [o Ht]]].
-    exists t, x, o. change ((b :: b2 :: b3 :: r3) ++ t ++ CRLF) with (b :: b2 :: b3 :: (r3 ++ t ++ CRLF)).
+    destruct (IH (b3 :: r3) (2 + off) ltac:(cbn [length] in *; lia) H) as [t [Hbt [x [o Ht]]]].
+    exists t. split; [exact Hbt|]. exists x, o. change ((b :: b2 :: b3 :: r3) ++ t ++ CRLF) with (b :: b2 :: b3 :: (r3 ++ t ++ CRLF)).
     rewrite rvs_step_fold_cr by assumption. exact Ht. }
   destruct (is 10 b) eqn:E10.
   { destruct (allow_obsolete_multiline_headers hc) eqn:Ef; [|discriminate].
     destruct r as [|b3 r3].
-    { exists []. cbn [app ref_value_start]. rewrite Ewb, Ev, E13, E10, Ef. eexists; eexists; reflexivity. }
+    { exists []. split; [bo|]. cbn [app ref_value_start]. rewrite Ewb, Ev, E13, E10, Ef. eexists; eexists; reflexivity. }
     destruct (ws b3) eqn:Ew; [|discriminate].
-    destruct (IH (b3 :: r3) (S off) ltac:(lia) H) as [t [x [o Ht]]].
-    exists t, x, o. change ((b :: b3 :: r3) ++ t ++ CRLF) with (b :: b3 :: (r3 ++ t ++ CRLF)).
+    destruct (IH (b3 :: r3) (S off) ltac:(lia) H) as [t [Hbt [x [o Ht]]]].
+    exists t. split; [exact Hbt|]. exists x, o. change ((b :: b3 :: r3) ++ t ++ CRLF) with (b :: b3 :: (r3 ++ t ++ CRLF)).
     rewrite rvs_step_fold_lf by assumption. exact Ht. }
   destruct (ref_invalid (ignore_invalid_headers hc) HeaderValue off (b :: r)) as [u o' r'| |e'] eqn:Ei; cbn [rbind] in H; try discriminate.
   destruct (ref_invalid_complete _ _ _ _ CRLF Ei) as [o Ho].
-  exists [10%N]. eexists; exists o. change ((b :: r) ++ [10%N] ++ CRLF) with (b :: (r ++ 10%N :: CRLF)).
+  exists [10%N]. split; [bo|]. eexists; exists o. change ((b :: r) ++ [10%N] ++ CRLF) with (b :: (r ++ 10%N :: CRLF)).
   cbn [ref_value_start]. rewrite Ewb, Ev, E13, E10. change (b :: (r ++ 10%N :: CRLF)) with ((b :: r) ++ 10%N :: CRLF).
   rewrite Ho. reflexivity.
 Qed.
 
 Lemma ref_value_complete name off l :
   ref_value hc name off l = RPart ->
-  exists t x o, x <> LEnd /\ ref_value hc name off (l ++ t ++ CRLF) = ROk x o CRLF.
+  exists t, bytes_ok t /\ exists x o, x <> LEnd /\ ref_value hc name off (l ++ t ++ CRLF) = ROk x o CRLF.
 Proof.
   unfold ref_value. intros H.
   destruct (ref_value_start hc off l) as [v o r| |e] eqn:Es; cbn [rbind] in H; try discriminate.
-  destruct (ref_value_start_complete (length l) l off (le_n _) Es) as [t [x [o Ht]]].
-  exists t. rewrite Ht. cbn [rbind]. eexists; exists o. split; [|reflexivity]. destruct (dropped x); discriminate.
+  destruct (ref_value_start_complete (length l) l off (le_n _) Es) as [t [Hbt [x [o Ht]]]].
+  exists t. split; [exact Hbt|]. rewrite Ht. cbn [rbind]. eexists; exists o. split; [|reflexivity]. destruct (dropped x); discriminate.
 Qed.
 
 (* a header line that is not finished: some continuation finishes the head right there, or finishes
    the line (as a stored or a skipped one) in front of the final empty line *)
 Lemma ref_header_line_complete first off l :
   ref_header_line hc first off l = RPart ->
-  exists t, (exists o, ref_header_line hc first off (l ++ t) = ROk LEnd o []) \/
-            (exists x o, x <> LEnd /\ ref_header_line hc first off (l ++ t ++ CRLF) = ROk x o CRLF).
+  exists t, bytes_ok t /\
+           ((exists o, ref_header_line hc first off (l ++ t) = ROk LEnd o []) \/
+            (exists x o, x <> LEnd /\ ref_header_line hc first off (l ++ t ++ CRLF) = ROk x o CRLF)).
 Proof.
   unfold ref_header_line. destruct l as [|b r].
-  { intros _. exists CRLF. left. eexists. reflexivity. }
+  { intros _. exists CRLF. split; [bo|]. left. eexists. reflexivity. }
   destruct (is 13 b) eqn:E13.
   { destruct r as [|b2 r2]; [|destruct (is 10 b2); discriminate]. intros _.
-    exists [10%N]. left. cbn [app]. rewrite E13. eexists. reflexivity. }
+    exists [10%N]. split; [bo|]. left. cbn [app]. rewrite E13. eexists. reflexivity. }
   destruct (is 10 b) eqn:E10; [discriminate|].
   destruct (negb (tchar b)) eqn:Et.
   { destruct (allow_space_before_first_header_name hc && first && ws b) eqn:Esp.
     - destruct (span ws (b :: r)); discriminate.
     - intros H. destruct (ref_invalid_complete _ _ _ _ CRLF H) as [o Ho].
-      exists [10%N]. right. exists LSkip, o. split; [discriminate|].
+      exists [10%N]. split; [bo|]. right. exists LSkip, o. split; [discriminate|].
       change ((b :: r) ++ [10%N] ++ CRLF) with (b :: (r ++ 10%N :: CRLF)). cbn iota. rewrite E13, E10, Et, Esp.
       exact Ho. }
   destruct (span tchar (b :: r)) as [name r1] eqn:Es.
   destruct r1 as [|c r2].
-  { intros _. exists (58%N :: CRLF). right.
+  { intros _. exists (58%N :: CRLF). split; [bo|]. right.
     pose proof (span_all_fst tchar (b :: r) ltac:(rewrite Es; reflexivity)) as Hn. rewrite Es in Hn. cbn [fst] in Hn. subst name.
     change ((b :: r) ++ (58%N :: CRLF) ++ CRLF) with (b :: (r ++ 58%N :: CRLF ++ CRLF)). cbn iota. rewrite E13, E10, Et.
     change (b :: (r ++ 58%N :: CRLF ++ CRLF)) with ((b :: r) ++ 58%N :: CRLF ++ CRLF).
@@ -208,13 +212,13 @@ Proof.
                end) = X).
   { intros e X HX. rewrite E13, E10, Et. exact HX. }
   destruct (is 58 c) eqn:E58.
-  { intros H. destruct (ref_value_complete _ _ _ H) as [t [x [o [Hx Ht]]]].
-    exists t. right. exists x, o. split; [exact Hx|].
+  { intros H. destruct (ref_value_complete _ _ _ H) as [t [Hbt [x [o [Hx Ht]]]]].
+    exists t. split; [exact Hbt|]. right. exists x, o. split; [exact Hx|].
     change ((b :: r) ++ t ++ CRLF) with (b :: (r ++ t ++ CRLF)). cbn iota. apply Hhead.
     rewrite Hsp, E58. exact Ht. }
   destruct (allow_spaces_after_header_name hc && ws c) eqn:Esa.
   - destruct (span ws (c :: r2)) as [w r3] eqn:Ew. destruct r3 as [|c' r4].
-    + intros _. exists (58%N :: CRLF). right.
+    + intros _. exists (58%N :: CRLF). split; [bo|]. right.
       pose proof (span_all_fst ws (c :: r2) ltac:(rewrite Ew; reflexivity)) as Hn. rewrite Ew in Hn. cbn [fst] in Hn. subst w.
       change ((b :: r) ++ (58%N :: CRLF) ++ CRLF) with (b :: (r ++ 58%N :: CRLF ++ CRLF)). cbn iota.
       eexists; eexists. split; [|apply Hhead; rewrite Hsp, E58, Esa].
@@ -225,16 +229,16 @@ Proof.
       destruct (allow_obsolete_multiline_headers hc); discriminate.
     + assert (Hw : forall e, span ws ((c :: r2) ++ e) = (w, c' :: r4 ++ e)) by (intros e; apply (span_ext _ _ _ _ _ _ Ew)).
       destruct (is 58 c') eqn:E58'.
-      * intros H. destruct (ref_value_complete _ _ _ H) as [t [x [o [Hx Ht]]]].
-        exists t. right. exists x, o. split; [exact Hx|].
+      * intros H. destruct (ref_value_complete _ _ _ H) as [t [Hbt [x [o [Hx Ht]]]]].
+        exists t. split; [exact Hbt|]. right. exists x, o. split; [exact Hx|].
         change ((b :: r) ++ t ++ CRLF) with (b :: (r ++ t ++ CRLF)). cbn iota. apply Hhead.
         rewrite Hsp, E58, Esa. change (c :: r2 ++ t ++ CRLF) with ((c :: r2) ++ t ++ CRLF). rewrite Hw, E58'. exact Ht.
       * intros H. destruct (ref_invalid_complete _ _ _ _ CRLF H) as [o Ho].
-        exists [10%N]. right. exists LSkip, o. split; [discriminate|].
+        exists [10%N]. split; [bo|]. right. exists LSkip, o. split; [discriminate|].
         change ((b :: r) ++ [10%N] ++ CRLF) with (b :: (r ++ [10%N] ++ CRLF)). cbn iota. apply Hhead.
         rewrite Hsp, E58, Esa. change (c :: r2 ++ [10%N] ++ CRLF) with ((c :: r2) ++ [10%N] ++ CRLF). rewrite Hw, E58'. exact Ho.
   - intros H. destruct (ref_invalid_complete _ _ _ _ CRLF H) as [o Ho].
-    exists [10%N]. right. exists LSkip, o. split; [discriminate|].
+    exists [10%N]. split; [bo|]. right. exists LSkip, o. split; [discriminate|].
     change ((b :: r) ++ [10%N] ++ CRLF) with (b :: (r ++ [10%N] ++ CRLF)). cbn iota. apply Hhead.
     rewrite Hsp, E58, Esa. exact Ho.
 Qed.
@@ -247,7 +251,7 @@ Proof. destruct f; [lia|]. intros _. reflexivity. Qed.
 
 Lemma ref_header_block_complete hc : forall f cap hs off l hs',
   length l < f -> ref_header_block hc f cap hs off l = (Partial, hs') ->
-  exists t, forall f', length (l ++ t) < f' -> good (fst (ref_header_block hc f' cap hs off (l ++ t))).
+  exists t, bytes_ok t /\ forall f', length (l ++ t) < f' -> good (fst (ref_header_block hc f' cap hs off (l ++ t))).
 Proof.
   induction f as [|f IH]; intros cap hs off l hs' Hf H; [lia|].
   cbn [ref_header_block] in H.
@@ -259,11 +263,11 @@ Proof.
     assert (Rec : forall hs0, x <> LEnd ->
               (match x with LHeader n v => Nat.ltb (length hs) cap = true /\ hs0 = hs ++ [(n, v)] | _ => hs0 = hs end) ->
               ref_header_block hc f cap hs0 (k + off) (skipn k l) = (Partial, hs') ->
-              exists t, forall f', length (l ++ t) < f' -> good (fst (ref_header_block hc f' cap hs off (l ++ t)))).
+              exists t, bytes_ok t /\ forall f', length (l ++ t) < f' -> good (fst (ref_header_block hc f' cap hs off (l ++ t)))).
     { intros hs0 Hx Hhs H0.
       destruct (skipn k l) as [|c0 r0] eqn:Er.
       + (* the line ended exactly at the end of the buffer: finish with the empty line *)
-        exists CRLF. intros f' Hf'. destruct f' as [|f']; [lia|]. cbn [ref_header_block].
+        exists CRLF. split; [bo|]. intros f' Hf'. destruct f' as [|f']; [lia|]. cbn [ref_header_block].
         pose proof (ref_header_line_stable CRLF hc (null hs) off l) as Hs. rewrite El in Hs. cbn [extends_l] in Hs.
         assert (Hl : ref_header_line hc (null hs) off (l ++ CRLF) = ROk x (k + off) CRLF).
         { destruct Hs as [(_ & _ & Hs)|Hs]; [apply Hs; reflexivity|exact Hs]. }
@@ -271,7 +275,7 @@ Proof.
         destruct x as [| |n v]; [congruence| |].
         * left. eexists. apply block_on_crlf. lia.
         * destruct Hhs as [Hc _]. rewrite Hc. left. eexists. apply block_on_crlf. lia.
-      + destruct (IH _ _ _ _ _ Hlr H0) as [t Ht]. exists t.
+      + destruct (IH _ _ _ _ _ Hlr H0) as [t [Hbt Ht]]. exists t. split; [exact Hbt|].
         intros f' Hf'. destruct f' as [|f']; [lia|]. cbn [ref_header_block].
         pose proof (ref_header_line_stable t hc (null hs) off l) as Hs. rewrite El in Hs. cbn [extends_l] in Hs.
         destruct Hs as [(_ & Hnil & _)|Hs]; [discriminate|]. rewrite Hs.
@@ -284,9 +288,9 @@ Proof.
     + eapply Rec; [discriminate|reflexivity|exact H].
     + destruct (Nat.ltb (length hs) cap) eqn:Ec; [|discriminate].
       eapply Rec; [discriminate|split; reflexivity|exact H].
-  - destruct (Hcomp eq_refl) as [t [[o Ho]|[x [o [Hx Ho]]]]].
-    + exists t. intros f' Hf'. destruct f' as [|f']; [lia|]. cbn [ref_header_block]. rewrite Ho. left. eexists. reflexivity.
-    + exists (t ++ CRLF). intros f' Hf'. destruct f' as [|f']; [lia|]. cbn [ref_header_block]. rewrite Ho.
+  - destruct (Hcomp eq_refl) as [t [Hbt [[o Ho]|[x [o [Hx Ho]]]]]].
+    + exists t. split; [exact Hbt|]. intros f' Hf'. destruct f' as [|f']; [lia|]. cbn [ref_header_block]. rewrite Ho. left. eexists. reflexivity.
+    + exists (t ++ CRLF). split; [bo|]. intros f' Hf'. destruct f' as [|f']; [lia|]. cbn [ref_header_block]. rewrite Ho.
       rewrite !app_length in Hf'. cbn [length] in Hf'.
       destruct x as [| |n v]; [congruence| |].
       * left. eexists. apply block_on_crlf. lia.
@@ -296,10 +300,10 @@ Qed.
 
 Theorem ref_headers_complete hc cap off l hs :
   ref_headers hc cap off l = (Partial, hs) ->
-  exists t, good (fst (ref_headers hc cap off (l ++ t))).
+  exists t, bytes_ok t /\ good (fst (ref_headers hc cap off (l ++ t))).
 Proof.
-  unfold ref_headers. intros H. apply ref_header_block_complete in H as [t Ht]; [|lia].
-  exists t. apply Ht. lia.
+  unfold ref_headers. intros H. apply ref_header_block_complete in H as [t [Hbt Ht]]; [|lia].
+  exists t. split; [exact Hbt|]. apply Ht. lia.
 Qed.
 
 (* ================= start lines and whole messages ================= *)
@@ -312,7 +316,7 @@ Definition okx (X : Prop) (x : rres unit) : Prop :=
   (exists o r, x = ROk tt o r) \/ x = RErr TooManyHeaders \/ (x = RErr Token /\ X).
 
 Definition Comp (K : nat -> list N -> rres unit) : Prop :=
-  forall off l, K off l = RPart -> exists ext, okx (bad_target l) (K off (l ++ ext)).
+  forall off l, K off l = RPart -> exists ext, bytes_ok ext /\ okx (bad_target l) (K off (l ++ ext)).
 
 Lemma bad_target_suffix k l : bad_target (skipn k l) -> bad_target l.
 Proof.
@@ -327,12 +331,12 @@ Lemma comp_bind {A} (s : nat -> list N -> rres A) (g : A -> nat -> list N -> rre
   (forall ext off l, extends ext (s off l) (s off (l ++ ext))) ->
   (forall off l, advances0 off l (s off l)) ->
   (forall a, Comp (g a)) ->
-  (forall off l, s off l = RPart -> exists ext, okx (bad_target l) (rbind (s off (l ++ ext)) g)) ->
+  (forall off l, s off l = RPart -> exists ext, bytes_ok ext /\ okx (bad_target l) (rbind (s off (l ++ ext)) g)) ->
   Comp (fun off l => rbind (s off l) g).
 Proof.
   intros Hst Hadv Hg Hs off l H. specialize (Hadv off l).
   destruct (s off l) as [a o r| |e] eqn:E; cbn [rbind] in H.
-  - destruct (Hg a o r H) as [ext Hok]. exists ext. specialize (Hst ext off l). rewrite E in Hst. cbn [extends] in Hst.
+  - destruct (Hg a o r H) as [ext [Hbe Hok]]. exists ext. split; [exact Hbe|]. specialize (Hst ext off l). rewrite E in Hst. cbn [extends] in Hst.
     rewrite Hst. cbn [rbind]. eapply okx_mono; [|exact Hok].
     destruct Hadv as [k (_ & _ & ->)]. apply bad_target_suffix.
   - apply Hs. exact E.
@@ -348,7 +352,7 @@ Lemma K5_comp hc cap : Comp (K5 hc cap).
 Proof.
   intros off l H. unfold K5 in *. destruct (ref_headers hc cap off l) as [st hs] eqn:E. cbn [fst] in H.
   destruct st; try discriminate.
-  - destruct (ref_headers_complete _ _ _ _ _ E) as [t [[n Hn]|Ht]]; exists t.
+  - destruct (ref_headers_complete _ _ _ _ _ E) as [t [Hbt [[n Hn]|Ht]]]; exists t; (split; [exact Hbt|]).
     + left. rewrite Hn. eexists; eexists; reflexivity.
     + right; left. rewrite Ht. reflexivity.
   - exfalso. eapply (ref_headers_no_fault hc cap off l). rewrite E. reflexivity.
@@ -361,11 +365,11 @@ Proof. reflexivity. Qed.
 (* ---- line end ---- *)
 Definition K4 hc cap : nat -> list N -> rres unit := fun o l => rbind (ref_eol NewLine o l) (fun _ => K5 hc cap).
 Lemma eol_part e off l : ref_eol e off l = RPart ->
-  exists t, ref_eol e off (l ++ t ++ CRLF) = ROk tt (length (l ++ t) + off) CRLF.
+  exists t, bytes_ok t /\ ref_eol e off (l ++ t ++ CRLF) = ROk tt (length (l ++ t) + off) CRLF.
 Proof.
-  unfold ref_eol. destruct l as [|b r]; [intros _; exists CRLF; reflexivity|].
+  unfold ref_eol. destruct l as [|b r]; [intros _; exists CRLF; split; [bo|reflexivity]|].
   destruct (is 13 b) eqn:E13; [|destruct (is 10 b); discriminate].
-  destruct r as [|b2 r2]; [|destruct (is 10 b2); discriminate]. intros _. exists [10%N]. cbn [app]. rewrite E13. reflexivity.
+  destruct r as [|b2 r2]; [|destruct (is 10 b2); discriminate]. intros _. exists [10%N]. split; [bo|]. cbn [app]. rewrite E13. reflexivity.
 Qed.
 Lemma K4_comp hc cap : Comp (K4 hc cap).
 Proof.
@@ -373,7 +377,7 @@ Proof.
   - intros. apply ref_eol_stable.
   - intros. apply advances_weaken. apply ref_eol_adv.
   - intros _. apply K5_comp.
-  - intros off l H. destruct (eol_part _ _ _ H) as [t Ht]. exists (t ++ CRLF). rewrite Ht. cbn [rbind]. left. eexists; eexists; reflexivity.
+  - intros off l H. destruct (eol_part _ _ _ H) as [t [Hbt Ht]]. exists (t ++ CRLF). split; [bo|]. rewrite Ht. cbn [rbind]. left. eexists; eexists; reflexivity.
 Qed.
 Lemma K4_tail hc cap o : K4 hc cap o TAIL2 = ROk tt (4 + o) [].
 Proof. reflexivity. Qed.
@@ -391,12 +395,13 @@ Proof.
   cbn [take] in H. destruct (take n l) eqn:E; [discriminate|]. apply IH in E. cbn [length]. lia.
 Qed.
 Lemma version_part off l : ref_version off l = RPart ->
-  exists t, forall R, ref_version off (l ++ t ++ R) = ROk 1%N (8 + off) R.
+  exists t, bytes_ok t /\ forall R, ref_version off (l ++ t ++ R) = ROk 1%N (8 + off) R.
 Proof.
   unfold ref_version. destruct (take 8 l) eqn:Et.
   { destruct (list_eqb _ _); [discriminate|]. destruct (list_eqb _ _); discriminate. }
   destruct (is_prefix l HTTP1dot) eqn:Ep; [|discriminate]. intros _.
-  exists (skipn (length l) HTTP1dot ++ [49%N]). intros R.
+  exists (skipn (length l) HTTP1dot ++ [49%N]).
+  split; [apply bytes_ok_app; split; [apply bytes_ok_skipn; unfold HTTP1dot|]; bo|]. intros R.
   rewrite <- app_assoc. rewrite (app_assoc l). rewrite <- (is_prefix_split _ _ Ep). reflexivity.
 Qed.
 Definition K3v hc cap : nat -> list N -> rres unit := fun o l => rbind (ref_version o l) (fun _ => K4 hc cap).
@@ -406,7 +411,7 @@ Proof.
   - intros. apply ref_version_stable.
   - intros. apply advances_weaken. apply ref_version_adv.
   - intros _. apply K4_comp.
-  - intros off l H. destruct (version_part _ _ H) as [t Ht]. exists (t ++ TAIL2). rewrite Ht. cbn [rbind]. left. eexists; eexists; reflexivity.
+  - intros off l H. destruct (version_part _ _ H) as [t [Hbt Ht]]. exists (t ++ TAIL2). split; [bo|]. rewrite Ht. cbn [rbind]. left. eexists; eexists; reflexivity.
 Qed.
 Notation VTAIL := [72; 84; 84; 80; 47; 49; 46; 49; 13; 10; 13; 10]%N.
 Lemma K3v_tail hc cap o : K3v hc cap o VTAIL = ROk tt (12 + o) [].
@@ -427,7 +432,7 @@ Proof.
   - intros. apply ref_spaces_stable.
   - intros. apply ref_spaces_adv.
   - intros _. apply K3v_comp.
-  - intros off l H. exists VTAIL. rewrite (spaces_part _ _ _ H) by reflexivity. cbn [rbind]. left. eexists; eexists; reflexivity.
+  - intros off l H. exists VTAIL. split; [bo|]. rewrite (spaces_part _ _ _ H) by reflexivity. cbn [rbind]. left. eexists; eexists; reflexivity.
 Qed.
 Lemma K3_tail ms hc cap o : K3 ms hc cap o VTAIL = ROk tt (12 + o) [].
 Proof. destruct ms; reflexivity. Qed.
@@ -444,8 +449,8 @@ Proof.
     2:{ destruct (negb (is 32 b)); [discriminate|]. destruct (null t); [discriminate|]. destruct (negb (utf8_valid t)); discriminate. }
     clear H. pose proof (span_all_fst uri_char l ltac:(rewrite Es; reflexivity)) as Hf. rewrite Es in Hf. cbn [fst] in Hf. subst t.
     destruct l as [|x l'].
-    + exists (47%N :: 32%N :: VTAIL). cbn [app]. left. destruct ms; eexists; eexists; reflexivity.
-    + exists (32%N :: VTAIL). unfold ref_target.
+    + exists (47%N :: 32%N :: VTAIL). split; [bo|]. cbn [app]. left. destruct ms; eexists; eexists; reflexivity.
+    + exists (32%N :: VTAIL). split; [bo|]. unfold ref_target.
       rewrite (span_all_stop uri_char (x :: l') (32%N :: VTAIL)); [|rewrite Es; reflexivity|reflexivity].
       change (negb (is 32 32)) with false. cbn iota. cbn [null].
       destruct (utf8_valid (x :: l')) eqn:Eu; cbn [negb rbind].
@@ -462,7 +467,7 @@ Proof.
   - intros. apply ref_spaces_stable.
   - intros. apply ref_spaces_adv.
   - intros _. apply K2t_comp.
-  - intros off l H. exists TTAIL. rewrite (spaces_part _ _ _ H) by reflexivity. cbn [rbind]. left. rewrite K2t_tail. eexists; eexists; reflexivity.
+  - intros off l H. exists TTAIL. split; [bo|]. rewrite (spaces_part _ _ _ H) by reflexivity. cbn [rbind]. left. rewrite K2t_tail. eexists; eexists; reflexivity.
 Qed.
 Lemma K2_tail ms hc cap o : K2 ms hc cap o TTAIL = ROk tt (14 + o) [].
 Proof. destruct ms; reflexivity. Qed.
@@ -479,8 +484,8 @@ Proof.
     2:{ destruct (null m); [discriminate|]. destruct (is 32 b); discriminate. }
     clear H. pose proof (span_all_fst tchar l ltac:(rewrite Es; reflexivity)) as Hf. rewrite Es in Hf. cbn [fst] in Hf. subst m.
     destruct l as [|x l'].
-    + exists (71%N :: 32%N :: TTAIL). cbn [app]. left. destruct ms; eexists; eexists; reflexivity.
-    + exists (32%N :: TTAIL). unfold ref_method.
+    + exists (71%N :: 32%N :: TTAIL). split; [bo|]. cbn [app]. left. destruct ms; eexists; eexists; reflexivity.
+    + exists (32%N :: TTAIL). split; [bo|]. unfold ref_method.
       rewrite (span_all_stop tchar (x :: l') (32%N :: TTAIL)); [|rewrite Es; reflexivity|reflexivity].
       cbn [null]. change (is 32 32) with true. cbn iota. cbn [rbind]. left. rewrite K2_tail. eexists; eexists; reflexivity.
 Qed.
@@ -490,21 +495,21 @@ Proof. destruct ms; reflexivity. Qed.
 
 (* ---- leading empty lines ---- *)
 Lemma empty_lines_part : forall n l off, length l <= n -> ref_empty_lines off l = RPart ->
-  exists t o, forall c R, is 13 c = false -> is 10 c = false -> ref_empty_lines off (l ++ t ++ c :: R) = ROk tt o (c :: R).
+  exists t, bytes_ok t /\ exists o, forall c R, is 13 c = false -> is 10 c = false -> ref_empty_lines off (l ++ t ++ c :: R) = ROk tt o (c :: R).
 Proof.
   induction n as [|n IH]; intros l off Hn H.
-  { destruct l; [|cbn [length] in Hn; lia]. exists [], off. intros c R H13 H10. cbn [app ref_empty_lines]. rewrite H13, H10. reflexivity. }
+  { destruct l; [|cbn [length] in Hn; lia]. exists []. split; [bo|]. exists off. intros c R H13 H10. cbn [app ref_empty_lines]. rewrite H13, H10. reflexivity. }
   destruct l as [|b r].
-  { exists [], off. intros c R H13 H10. cbn [app ref_empty_lines]. rewrite H13, H10. reflexivity. }
+  { exists []. split; [bo|]. exists off. intros c R H13 H10. cbn [app ref_empty_lines]. rewrite H13, H10. reflexivity. }
   cbn [length] in Hn. cbn [ref_empty_lines] in H. destruct (is 13 b) eqn:E13.
   - destruct r as [|b2 r2].
-    + exists [10%N], (2 + off). intros c R H13 H10. cbn [app ref_empty_lines]. rewrite E13. change (is 10 10) with true. cbn iota.
+    + exists [10%N]. split; [bo|]. exists (2 + off). intros c R H13 H10. cbn [app ref_empty_lines]. rewrite E13. change (is 10 10) with true. cbn iota.
       rewrite H13, H10. reflexivity.
     + destruct (is 10 b2) eqn:E10; [|discriminate].
-      destruct (IH r2 (2 + off) ltac:(cbn [length] in *; lia) H) as [t [o Ht]]. exists t, o. intros c R H13 H10.
+      destruct (IH r2 (2 + off) ltac:(cbn [length] in *; lia) H) as [t [Hbt [o Ht]]]. exists t. split; [exact Hbt|]. exists o. intros c R H13 H10.
       cbn [app ref_empty_lines]. rewrite E13, E10. apply Ht; assumption.
   - destruct (is 10 b) eqn:E10; [|discriminate].
-    destruct (IH r (1 + off) ltac:(lia) H) as [t [o Ht]]. exists t, o. intros c R H13 H10.
+    destruct (IH r (1 + off) ltac:(lia) H) as [t [Hbt [o Ht]]]. exists t. split; [exact Hbt|]. exists o. intros c R H13 H10.
     cbn [app ref_empty_lines]. rewrite E13, E10. apply Ht; assumption.
 Qed.
 Definition K0 ms hc cap : nat -> list N -> rres unit := fun o l => rbind (ref_empty_lines o l) (fun _ => K1 ms hc cap).
@@ -514,8 +519,8 @@ Proof.
   - intros. apply (ref_empty_lines_stable ext (length l)). lia.
   - intros. apply (ref_empty_lines_adv (length l)). lia.
   - intros _. apply K1_comp.
-  - intros off l H. destruct (empty_lines_part (length l) l off (le_n _) H) as [t [o Ht]].
-    exists (t ++ MTAIL). rewrite Ht by reflexivity. cbn [rbind]. left. rewrite K1_tail. eexists; eexists; reflexivity.
+  - intros off l H. destruct (empty_lines_part (length l) l off (le_n _) H) as [t [Hbt [o Ht]]].
+    exists (t ++ MTAIL). split; [bo|]. rewrite Ht by reflexivity. cbn [rbind]. left. rewrite K1_tail. eexists; eexists; reflexivity.
 Qed.
 
 Lemma request_pipe cf cap buf :
@@ -546,8 +551,215 @@ Qed.
 
 Theorem ref_request_completable cf cap buf :
   rq_status (ref_request cf cap buf) = Partial ->
-  exists ext, completes (bad_target buf) (rq_status (ref_request cf cap (buf ++ ext))).
+  exists ext, bytes_ok ext /\ completes (bad_target buf) (rq_status (ref_request cf cap (buf ++ ext))).
 Proof.
   intros H. pose proof (request_pipe cf cap buf) as Hp. rewrite H in Hp. cbn [st_res] in Hp. symmetry in Hp.
-  destruct (K0_comp _ _ _ _ _ Hp) as [ext Hok]. exists ext. apply okx_completes. rewrite request_pipe. exact Hok.
+  destruct (K0_comp _ _ _ _ _ Hp) as [ext [Hbe Hok]]. exists ext. split; [exact Hbe|]. apply okx_completes. rewrite request_pipe. exact Hok.
+Qed.
+
+(* ================= responses ================= *)
+Lemma reason_part off l : ref_reason off l = RPart ->
+  exists t, bytes_ok t /\ exists x o, ref_reason off (l ++ t ++ CRLF) = ROk x o CRLF.
+Proof.
+  unfold ref_reason. destruct (span reason_char l) as [t r] eqn:Es. cbn zeta.
+  destruct (ref_eol Status (length t + off) r) as [u o r'| |e] eqn:Ee; try discriminate. intros _.
+  destruct (eol_part _ _ _ Ee) as [t2 [Hbt2 Ht2]].
+  destruct r as [|b r1].
+  - pose proof (span_all_fst reason_char l ltac:(rewrite Es; reflexivity)) as Hf. rewrite Es in Hf. cbn [fst] in Hf. subst t.
+    exists CRLF. split; [bo|]. rewrite (span_all_stop reason_char l (CRLF ++ CRLF)); [|rewrite Es; reflexivity|reflexivity].
+    cbn zeta. eexists; eexists. reflexivity.
+  - exists t2. split; [exact Hbt2|]. rewrite (span_ext _ _ _ _ _ _ Es). cbn zeta.
+    change (b :: r1 ++ t2 ++ CRLF) with ((b :: r1) ++ t2 ++ CRLF). rewrite Ht2. eexists; eexists. reflexivity.
+Qed.
+
+Lemma after_code_part ms off l : ref_after_code ms off l = RPart ->
+  exists t, bytes_ok t /\ exists x o, ref_after_code ms off (l ++ t ++ CRLF) = ROk x o CRLF.
+Proof.
+  unfold ref_after_code. destruct l as [|b r]; [intros _; exists CRLF; split; [bo|]; eexists; eexists; reflexivity|].
+  destruct (is 32 b) eqn:E32.
+  - intros H. destruct (ref_spaces ms (S off) r) as [u o r'| |e] eqn:Esp; cbn [rbind] in H; try discriminate.
+    + destruct (reason_part _ _ H) as [t [Hbt [x [o' Ht]]]]. exists t. split; [exact Hbt|]. exists x, o'. cbn [app]. rewrite E32.
+      pose proof (ref_spaces_stable (t ++ CRLF) ms (S off) r) as Hs. rewrite Esp in Hs. cbn [extends] in Hs. rewrite Hs. cbn [rbind]. exact Ht.
+    + exists CRLF. split; [bo|]. cbn [app]. rewrite E32. rewrite (spaces_part _ _ _ Esp) by reflexivity. cbn [rbind]. eexists; eexists. reflexivity.
+  - destruct (is 13 b || is 10 b) eqn:Ec; [|discriminate].
+    destruct (ref_eol Status off (b :: r)) as [u o r'| |e] eqn:Ee; try discriminate. intros _.
+    destruct (eol_part _ _ _ Ee) as [t [Hbt Ht]]. exists t. split; [exact Hbt|]. change ((b :: r) ++ t ++ CRLF) with (b :: (r ++ t ++ CRLF)). cbn iota. rewrite E32, Ec.
+    change (b :: (r ++ t ++ CRLF)) with ((b :: r) ++ t ++ CRLF). rewrite Ht. eexists; eexists. reflexivity.
+Qed.
+
+Definition R5 ms hc cap : nat -> list N -> rres unit := fun o l => rbind (ref_after_code ms o l) (fun _ => K5 hc cap).
+Lemma R5_comp ms hc cap : Comp (R5 ms hc cap).
+Proof.
+  apply comp_bind.
+  - intros. apply ref_after_code_stable.
+  - intros. apply ref_after_code_adv.
+  - intros _. apply K5_comp.
+  - intros off l H. destruct (after_code_part _ _ _ H) as [t [Hbt [x [o Ht]]]]. exists (t ++ CRLF). split; [bo|]. rewrite Ht. cbn [rbind].
+    left. eexists; eexists; reflexivity.
+Qed.
+Lemma R5_tail ms hc cap o : R5 ms hc cap o TAIL2 = ROk tt (4 + o) [].
+Proof. reflexivity. Qed.
+
+Lemma code_part off l : ref_code off l = RPart ->
+  exists t, bytes_ok t /\ forall R, exists c, ref_code off (l ++ t ++ R) = ROk c (3 + off) R.
+Proof.
+  unfold ref_code. destruct l as [|a r1]; [intros _; exists [50; 48; 48]%N; split; [bo|]; intros R; eexists; reflexivity|].
+  destruct (digit a) eqn:Ea; cbn [negb]; [|discriminate].
+  destruct r1 as [|b r2]; [intros _; exists [48; 48]%N; split; [bo|]; intros R; cbn [app]; rewrite Ea; eexists; reflexivity|].
+  destruct (digit b) eqn:Eb; cbn [negb]; [|discriminate].
+  destruct r2 as [|c r3]; [intros _; exists [48%N]; split; [bo|]; intros R; cbn [app]; rewrite Ea, Eb; eexists; reflexivity|].
+  destruct (digit c); discriminate.
+Qed.
+Definition R4 ms hc cap : nat -> list N -> rres unit := fun o l => rbind (ref_code o l) (fun _ => R5 ms hc cap).
+Lemma R4_comp ms hc cap : Comp (R4 ms hc cap).
+Proof.
+  apply comp_bind.
+  - intros. apply ref_code_stable.
+  - intros. apply advances_weaken. apply ref_code_adv.
+  - intros _. apply R5_comp.
+  - intros off l H. destruct (code_part _ _ H) as [t [Hbt Ht]]. exists (t ++ TAIL2). split; [bo|]. destruct (Ht TAIL2) as [c Hc]. rewrite Hc. cbn [rbind].
+    left. rewrite R5_tail. eexists; eexists; reflexivity.
+Qed.
+Notation CTAIL := [50; 48; 48; 13; 10; 13; 10]%N.
+Lemma R4_tail ms hc cap o : R4 ms hc cap o CTAIL = ROk tt (7 + o) [].
+Proof. reflexivity. Qed.
+
+Definition R3 ms hc cap : nat -> list N -> rres unit := fun o l => rbind (ref_spaces ms o l) (fun _ => R4 ms hc cap).
+Lemma R3_comp ms hc cap : Comp (R3 ms hc cap).
+Proof.
+  apply comp_bind.
+  - intros. apply ref_spaces_stable.
+  - intros. apply ref_spaces_adv.
+  - intros _. apply R4_comp.
+  - intros off l H. exists CTAIL. split; [bo|]. rewrite (spaces_part _ _ _ H) by reflexivity. cbn [rbind]. left. rewrite R4_tail. eexists; eexists; reflexivity.
+Qed.
+Lemma R3_tail ms hc cap o : R3 ms hc cap o CTAIL = ROk tt (7 + o) [].
+Proof. destruct ms; reflexivity. Qed.
+
+Definition R2 ms hc cap : nat -> list N -> rres unit := fun o l => rbind (ref_sp Version o l) (fun _ => R3 ms hc cap).
+Lemma R2_comp ms hc cap : Comp (R2 ms hc cap).
+Proof.
+  apply comp_bind.
+  - intros. apply ref_sp_stable.
+  - intros. apply advances_weaken. apply ref_sp_adv.
+  - intros _. apply R3_comp.
+  - intros off l H. unfold ref_sp in H. destruct l as [|b r]; [|destruct (is 32 b); discriminate].
+    exists (32%N :: CTAIL). split; [bo|]. cbn [app ref_sp]. change (is 32 32) with true. cbn iota. cbn [rbind]. left. rewrite R3_tail. eexists; eexists; reflexivity.
+Qed.
+Notation STAIL := (32%N :: CTAIL).
+Lemma R2_tail ms hc cap o : R2 ms hc cap o STAIL = ROk tt (8 + o) [].
+Proof. destruct ms; reflexivity. Qed.
+
+Definition R1 ms hc cap : nat -> list N -> rres unit := fun o l => rbind (ref_version o l) (fun _ => R2 ms hc cap).
+Lemma R1_comp ms hc cap : Comp (R1 ms hc cap).
+Proof.
+  apply comp_bind.
+  - intros. apply ref_version_stable.
+  - intros. apply advances_weaken. apply ref_version_adv.
+  - intros _. apply R2_comp.
+  - intros off l H. destruct (version_part _ _ H) as [t [Hbt Ht]]. exists (t ++ STAIL). split; [bo|]. rewrite Ht. cbn [rbind]. left. rewrite R2_tail. eexists; eexists; reflexivity.
+Qed.
+Notation RTAIL := ([72; 84; 84; 80; 47; 49; 46; 49]%N ++ STAIL).
+Lemma R1_tail ms hc cap o : R1 ms hc cap o RTAIL = ROk tt (16 + o) [].
+Proof. destruct ms; reflexivity. Qed.
+
+Definition R0 ms hc cap : nat -> list N -> rres unit := fun o l => rbind (ref_empty_lines o l) (fun _ => R1 ms hc cap).
+Lemma R0_comp ms hc cap : Comp (R0 ms hc cap).
+Proof.
+  apply comp_bind.
+  - intros. apply (ref_empty_lines_stable ext (length l)). lia.
+  - intros. apply (ref_empty_lines_adv (length l)). lia.
+  - intros _. apply R1_comp.
+  - intros off l H. destruct (empty_lines_part (length l) l off (le_n _) H) as [t [Hbt [o Ht]]].
+    exists (t ++ RTAIL). split; [bo|]. change (t ++ RTAIL) with (t ++ 72%N :: ([84; 84; 80; 47; 49; 46; 49]%N ++ STAIL)).
+    rewrite Ht by reflexivity. cbn [rbind]. left. change (72%N :: ([84; 84; 80; 47; 49; 46; 49]%N ++ STAIL)) with RTAIL.
+    rewrite R1_tail. eexists; eexists; reflexivity.
+Qed.
+
+Lemma response_pipe cf cap buf :
+  st_res (rp_status (ref_response cf cap buf)) =
+  R0 (allow_multiple_spaces_in_response_status_delimiters cf) (response_hcfg cf) cap 0 buf.
+Proof.
+  unfold ref_response, ref_status_line, R0, R1, R2, R3, R4, R5, K5.
+  destruct (ref_empty_lines 0 buf) as [u1 o1 l1| |e1]; cbn [rbind rp_status st_res]; try reflexivity.
+  destruct (ref_version o1 l1) as [v o2 l2| |e2]; cbn [rbind rp_status st_res]; try reflexivity.
+  destruct (ref_sp Version o2 l2) as [u3 o3 l3| |e3]; cbn [rbind rp_status st_res]; try reflexivity.
+  destruct (ref_spaces _ o3 l3) as [u4 o4 l4| |e4]; cbn [rbind rp_status st_res]; try reflexivity.
+  destruct (ref_code o4 l4) as [c o5 l5| |e5]; cbn [rbind rp_status st_res]; try reflexivity.
+  destruct (ref_after_code _ o5 l5) as [r o6 l6| |e6]; cbn [rbind rp_status st_res]; try reflexivity.
+  destruct (ref_headers (response_hcfg cf) cap o6 l6) as [s hs]. reflexivity.
+Qed.
+
+From HV.Proofs Require Import ErrKinds.
+
+Lemma ref_header_block_errs hc : forall f cap hs off l e hs',
+  ref_header_block hc f cap hs off l = (Error e, hs') -> line_err e \/ e = TooManyHeaders.
+Proof.
+  induction f as [|f IH]; intros cap hs off l e hs' H; cbn [ref_header_block] in H; [discriminate|].
+  pose proof (ref_header_line_errs hc (null hs) off l) as He.
+  destruct (ref_header_line hc (null hs) off l) as [x o r| |e0]; cbn [errs_in] in He.
+  - destruct x as [| |n v]; [discriminate|eapply IH; exact H|].
+    destruct (Nat.ltb (length hs) cap); [eapply IH; exact H|]. injection H as <- _. right. reflexivity.
+  - discriminate.
+  - injection H as <- _. left. exact He.
+Qed.
+
+Lemma ref_response_no_token cf cap buf : rp_status (ref_response cf cap buf) <> Error Token.
+Proof.
+  unfold ref_response.
+  pose proof (ref_status_line_errs (allow_multiple_spaces_in_response_status_delimiters cf) buf) as He.
+  destruct (ref_status_line _ buf) as [st r]. cbn [snd] in He.
+  destruct r as [u o l| |e]; cbn [errs_in rp_status] in *.
+  - destruct (ref_headers (response_hcfg cf) cap o l) as [s hs] eqn:Eh. cbn [rp_status]. intros ->.
+    unfold ref_headers in Eh. apply ref_header_block_errs in Eh as [[H|[H|H]]|H]; discriminate.
+  - discriminate.
+  - intros [= ->]. destruct He as [H|[H|H]]; discriminate.
+Qed.
+
+Theorem ref_response_completable cf cap buf :
+  rp_status (ref_response cf cap buf) = Partial ->
+  exists ext, bytes_ok ext /\ good (rp_status (ref_response cf cap (buf ++ ext))).
+Proof.
+  intros H. pose proof (response_pipe cf cap buf) as Hp. rewrite H in Hp. cbn [st_res] in Hp. symmetry in Hp.
+  destruct (R0_comp _ _ _ _ _ Hp) as [ext [Hbe Hok]]. exists ext. split; [exact Hbe|]. rewrite <- response_pipe in Hok.
+  apply okx_completes in Hok as [Hc|[Hc|[Hc _]]]; [left; exact Hc|right; exact Hc|].
+  exfalso. eapply ref_response_no_token. exact Hc.
+Qed.
+
+(* ---- chunk sizes ---- *)
+Theorem ref_chunk_completable buf v :
+  ref_chunk buf = (Partial, v) -> exists ext, bytes_ok ext /\ exists n v', ref_chunk (buf ++ ext) = (Complete n, v').
+Proof.
+  unfold ref_chunk.
+  destruct (span hexdig buf) as [ds r1] eqn:E1.
+  destruct (Nat.ltb 16 (length ds)) eqn:E16; [discriminate|].
+  destruct r1 as [|x1 r1'].
+  { intros _. pose proof (span_all_fst hexdig buf ltac:(rewrite E1; reflexivity)) as Hf. rewrite E1 in Hf. cbn [fst] in Hf. subst ds.
+    destruct buf as [|b0 buf'].
+    - exists [48; 13; 10]%N. split; [bo|]. eexists; eexists. reflexivity.
+    - exists CRLF. split; [bo|]. rewrite (span_all_stop hexdig (b0 :: buf') CRLF); [|rewrite E1; reflexivity|reflexivity].
+      rewrite E16. cbn [null]. eexists; eexists. reflexivity. }
+  destruct (null ds) eqn:En; [discriminate|].
+  assert (H1 : forall e, span hexdig (buf ++ e) = (ds, x1 :: r1' ++ e)) by (intros e; apply (span_ext _ _ _ _ _ _ E1)).
+  destruct (span ws (x1 :: r1')) as [w r2] eqn:E2.
+  destruct r2 as [|b r3].
+  { intros _. pose proof (span_all_fst ws (x1 :: r1') ltac:(rewrite E2; reflexivity)) as Hf. rewrite E2 in Hf. cbn [fst] in Hf. subst w.
+    exists CRLF. split; [bo|]. rewrite H1, E16, En. change (x1 :: r1' ++ CRLF) with ((x1 :: r1') ++ CRLF).
+    rewrite (span_all_stop ws (x1 :: r1') CRLF); [|rewrite E2; reflexivity|reflexivity].
+    eexists; eexists. reflexivity. }
+  assert (H2 : forall e, span ws ((x1 :: r1') ++ e) = (w, b :: r3 ++ e)) by (intros e; apply (span_ext _ _ _ _ _ _ E2)).
+  destruct (is 13 b) eqn:E13.
+  { destruct r3 as [|d r4]; [|destruct (is 10 d); discriminate]. intros _.
+    exists [10%N]. split; [bo|]. rewrite H1, E16, En. change (x1 :: r1' ++ [10%N]) with ((x1 :: r1') ++ [10%N]). rewrite H2. rewrite E13.
+    eexists; eexists. reflexivity. }
+  destruct (is 59 b) eqn:E59; [|discriminate].
+  destruct (span (fun x => negb (is 13 x)) r3) as [e r4] eqn:E3.
+  destruct r4 as [|c r5].
+  { intros _. pose proof (span_all_fst _ r3 ltac:(rewrite E3; reflexivity)) as Hf. rewrite E3 in Hf. cbn [fst] in Hf. subst e.
+    exists CRLF. split; [bo|]. rewrite H1, E16, En. change (x1 :: r1' ++ CRLF) with ((x1 :: r1') ++ CRLF). rewrite H2, E13, E59.
+    rewrite (span_all_stop _ r3 CRLF); [|rewrite E3; reflexivity|reflexivity].
+    eexists; eexists. reflexivity. }
+  destruct r5 as [|d r6]; [|destruct (is 10 d); discriminate]. intros _.
+  exists [10%N]. split; [bo|]. rewrite H1, E16, En. change (x1 :: r1' ++ [10%N]) with ((x1 :: r1') ++ [10%N]). rewrite H2, E13, E59.
+  rewrite (span_ext _ _ _ _ _ _ E3). eexists; eexists. reflexivity.
 Qed.
